@@ -12,6 +12,7 @@ pub mod refmodel {
     pub mod sasl;
     pub mod sig;
     pub mod val;
+    pub mod xml;
 }
 pub use run::{CaseResult, Failure, Obs, Run};
 pub use src::Src;
